@@ -35,8 +35,8 @@ func refU16(n int) []byte { return []byte{byte(n >> 8), byte(n)} }
 func refU32(n uint32) []byte {
 	return []byte{byte(n >> 24), byte(n >> 16), byte(n >> 8), byte(n)}
 }
-func refBin(b []byte) []byte  { return append(refU16(len(b)), b...) }
-func refStr(s string) []byte  { return refBin([]byte(s)) }
+func refBin(b []byte) []byte { return append(refU16(len(b)), b...) }
+func refStr(s string) []byte { return refBin([]byte(s)) }
 func cat(parts ...[]byte) []byte {
 	var out []byte
 	for _, p := range parts {
